@@ -15,6 +15,15 @@ package light
 // L3: an independent ground-truth oracle (no model): success only when every coordinate of the FIRST draw for that root was
 //     served non-empty at its own position by a contract-abiding answer; the coordinates requested for a root never change
 //     (retries, concurrent calls, crash/restart); at most one call per height inside the getter; no panic.
+//
+// Datastore faults: the datastore handed to every instance is a scripted wrapper (c03DS) around the shared in-memory map. It sees
+// every child operation autobatch issues on behalf of a call (Get; Batch, batch.Put, batch.Commit of a Flush) together with the
+// context of that call, and (a) fails the n-th operation of one kind of one call with an I/O error when armed, (b) in "context
+// aware" scenarios refuses every operation whose context is already done with ctx.Err() (what a datastore that honours contexts
+// does). What failed is OBSERVED (operation log per call) and handed to the model as CfLoad / CfStore; the oracle checks: a call
+// whose load failed returns an error, never reaches the getter and leaves the durable result exactly as it was; a call whose store
+// failed returns an error; afterwards the coordinates requested for the root are still coordinates of the first draw and contain
+// every coordinate that was never served.
 
 import (
 	"context"
@@ -71,15 +80,22 @@ type c03Resp struct {
 	Err   string `json:"err,omitempty"` // "", canceled, deadline, other
 }
 
+// c03Fault arms the datastore: the Nth child operation of kind Op issued on behalf of call T during this op fails with an I/O error
+type c03Fault struct {
+	Op  string `json:"op"` // get | batch | bput | commit
+	Nth int    `json:"nth"`
+}
+
 type c03Op struct {
-	Kind      string   `json:"k"` // call | resp | abort | crash | restart
-	T         int      `json:"t,omitempty"`
-	H         int      `json:"h,omitempty"`  // call: header index
-	PreCancel bool     `json:"pc,omitempty"` // call: context already cancelled
-	Deadline  bool     `json:"dl,omitempty"` // call: context carries a (far) deadline
-	Resp      *c03Resp `json:"r,omitempty"`
-	AbortErr  string   `json:"ae,omitempty"` // abort: canceled | deadline
-	Count     int      `json:"n,omitempty"`  // crash/restart: SampleAmount of the new instance
+	Kind      string    `json:"k"` // call | resp | abort | cancel | crash | restart
+	T         int       `json:"t,omitempty"`
+	H         int       `json:"h,omitempty"`  // call: header index
+	PreCancel bool      `json:"pc,omitempty"` // call: context already cancelled
+	Deadline  bool      `json:"dl,omitempty"` // call: context carries a (far) deadline
+	Resp      *c03Resp  `json:"r,omitempty"`
+	AbortErr  string    `json:"ae,omitempty"` // abort (waiting call) / cancel (call inside the getter): canceled | deadline
+	Count     int       `json:"n,omitempty"`  // crash/restart: SampleAmount of the new instance
+	Fault     *c03Fault `json:"f,omitempty"`  // call / resp: datastore fault armed for call T
 }
 
 type c03Scenario struct {
@@ -87,6 +103,7 @@ type c03Scenario struct {
 	Count    int      `json:"count"`
 	Batch    int      `json:"batch"`
 	RandSeed uint64   `json:"rand_seed"`
+	CtxAware bool     `json:"ctx_aware,omitempty"` // the datastore refuses operations whose context is done
 	Hdrs     []c03Hdr `json:"hdrs"`
 	Ops      []c03Op  `json:"ops"`
 }
@@ -157,18 +174,67 @@ func (c *c03Ctx) finish(err error) {
 	})
 }
 
-// ---------------------------------------------------------------- datastore of one instance (dies with the instance)
+// ---------------------------------------------------------------- datastore of one instance (dies with the instance; scripted faults)
 
 type c03DS struct {
 	datastore.Batching
 	dead *atomic.Bool
+	w    *c03World
 }
 
-var errC03Dead = errors.New("c03: instance crashed")
+var (
+	errC03Dead = errors.New("c03: instance crashed")
+	errC03IO   = errors.New("c03: scripted datastore i/o error")
+)
+
+// one child operation issued on behalf of a call: what, and how it failed ("" = it did not)
+type c03DSEv struct {
+	Op    string
+	Class string // "", other (armed I/O error), canceled, deadline (context-aware datastore, context done)
+}
+
+// fault decides whether child operation op, issued with ctx, fails; it logs the operation with the call it belongs to.
+func (d *c03DS) fault(ctx context.Context, op string) error {
+	th, _ := ctx.Value(c03Key{}).(*c03Thread)
+	if th == nil {
+		return nil // Close, the harness itself
+	}
+	w := d.w
+	w.mu.Lock()
+	defer w.mu.Unlock()
+	if w.sc.CtxAware {
+		if err := ctx.Err(); err != nil {
+			cl := "canceled"
+			if errors.Is(err, context.DeadlineExceeded) {
+				cl = "deadline"
+			}
+			th.dslog = append(th.dslog, c03DSEv{op, cl})
+			return err
+		}
+	}
+	th.opN[op]++
+	if a := th.arm; a != nil && a.Op == op && th.opN[op] == a.Nth {
+		th.arm = nil
+		th.dslog = append(th.dslog, c03DSEv{op, "other"})
+		return errC03IO
+	}
+	th.dslog = append(th.dslog, c03DSEv{op, ""})
+	return nil
+}
+
+func (d *c03DS) Get(ctx context.Context, k datastore.Key) ([]byte, error) {
+	if err := d.fault(ctx, "get"); err != nil {
+		return nil, err
+	}
+	return d.Batching.Get(ctx, k)
+}
 
 func (d *c03DS) Put(ctx context.Context, k datastore.Key, v []byte) error {
 	if d.dead.Load() {
 		return errC03Dead
+	}
+	if err := d.fault(ctx, "put"); err != nil {
+		return err
 	}
 	return d.Batching.Put(ctx, k, v)
 }
@@ -182,22 +248,61 @@ func (d *c03DS) Delete(ctx context.Context, k datastore.Key) error {
 
 type c03Batch struct {
 	datastore.Batch
-	dead *atomic.Bool
+	d *c03DS
 }
 
+func (b *c03Batch) Put(ctx context.Context, k datastore.Key, v []byte) error {
+	if err := b.d.fault(ctx, "bput"); err != nil {
+		return err
+	}
+	return b.Batch.Put(ctx, k, v)
+}
+
+// Commit fails as a whole: a failed commit writes nothing.
 func (b *c03Batch) Commit(ctx context.Context) error {
-	if b.dead.Load() {
+	if b.d.dead.Load() {
 		return errC03Dead
+	}
+	if err := b.d.fault(ctx, "commit"); err != nil {
+		return err
 	}
 	return b.Batch.Commit(ctx)
 }
 
 func (d *c03DS) Batch(ctx context.Context) (datastore.Batch, error) {
+	if err := d.fault(ctx, "batch"); err != nil {
+		return nil, err
+	}
 	b, err := d.Batching.Batch(ctx)
 	if err != nil {
 		return nil, err
 	}
-	return &c03Batch{Batch: b, dead: d.dead}, nil
+	return &c03Batch{Batch: b, d: d}, nil
+}
+
+// c03ObservedFault reads the operation log of one call over one coarse event: the first failed operation decides.
+// kind: "" | load | store; point (store): SfEarly (first flush, before the buffer is emptied) | SfCommit (first flush, commit) |
+// SfSecond (a later flush).
+func c03ObservedFault(log []c03DSEv) (kind, point, class string) {
+	flush := 0
+	for _, ev := range log {
+		if ev.Op == "batch" {
+			flush++
+		}
+		if ev.Class == "" {
+			continue
+		}
+		switch {
+		case ev.Op == "get":
+			return "load", "", ev.Class
+		case flush >= 2:
+			return "store", "SfSecond", ev.Class
+		case ev.Op == "commit":
+			return "store", "SfCommit", ev.Class
+		}
+		return "store", "SfEarly", ev.Class
+	}
+	return "", "", ""
 }
 
 // ---------------------------------------------------------------- world = real code + schedule control + ground truth
@@ -219,6 +324,11 @@ type c03Thread struct {
 	entered bool // a getter entry not yet processed by the main goroutine
 	blocked bool // as last reported
 	w       *c03World
+
+	// datastore: armed fault, operation counters and operation log of the current coarse event (guarded by w.mu)
+	arm   *c03Fault
+	opN   map[string]int
+	dslog []c03DSEv
 }
 
 type c03Truth struct {
@@ -231,6 +341,7 @@ type c03Truth struct {
 	sinceEmpty bool
 	stored     bool // an answer with at least one slot was processed: the code has written a result for this root
 	drawCount  int
+	storeFault bool // a store for this root failed: what was served need not be recorded; requests may repeat served coordinates
 }
 
 type c03World struct {
@@ -256,6 +367,7 @@ type c03World struct {
 	broken   string
 
 	lastPersist map[int]string
+	drop        bool // the tree under test drops a failed write from the write buffer (fix-c03-3), probed on the real code
 }
 
 // GetSamples is the scripted getter: it parks the call until the harness answers it.
@@ -337,7 +449,7 @@ func (w *c03World) newInstance(count int) {
 	w.dead = &atomic.Bool{}
 	w.count = count
 	w.threads = map[int]*c03Thread{}
-	w.la = NewShareAvailability(w, &c03DS{Batching: w.base, dead: w.dead}, nil, WithSampleAmount(uint(count)))
+	w.la = NewShareAvailability(w, &c03DS{Batching: w.base, dead: w.dead, w: w}, nil, WithSampleAmount(uint(count)))
 }
 
 func c03Classify(err error) string {
@@ -564,15 +676,27 @@ func (w *c03World) onEnter(th *c03Thread) {
 			w.viol("draw-count", fmt.Sprintf("root %d: %d coordinates drawn, want min(%d,%d)", h.Root, len(th.coords), w.count, h.W*h.W))
 		}
 	} else {
-		same := len(th.coords) == len(t.pending)
+		// the request must be the pending coordinates of the first draw; after a failed store, coordinates that were served but
+		// could not be recorded may be asked for again: then first draw >= request >= never served
+		same := len(th.coords) == len(t.pending) || t.storeFault
+		seen := map[c03Coord]bool{}
 		for _, c := range th.coords {
-			if !t.pending[c] {
+			if !(t.pending[c] || (t.storeFault && t.firstSet[c])) || seen[c] {
+				same = false
+			}
+			seen[c] = true
+		}
+		for c := range t.pending {
+			if !seen[c] {
 				same = false
 			}
 		}
 		if !same {
 			sig := "coords-changed"
 			switch {
+			case t.storeFault:
+				// a store failed earlier; the set that was requested from the getter has been replaced all the same
+				sig = "redraw-after-failed-store"
 			case t.sinceCrash:
 				sig = "redraw-after-crash"
 			case !t.stored:
@@ -677,6 +801,90 @@ func (w *c03World) checkPersist(h c03Hdr, av, rm []c03Coord) {
 	}
 }
 
+// ---------------------------------------------------------------- datastore faults: observation and oracle
+
+// takeFault consumes the datastore operation log of th over the coarse event that just ended.
+func (w *c03World) takeFault(th *c03Thread) (kind, point, class string) {
+	w.mu.Lock()
+	log := th.dslog
+	th.dslog = nil
+	w.mu.Unlock()
+	return c03ObservedFault(log)
+}
+
+// peekOrder: the remaining coordinates the running instance would load for header hi (write buffer first), nil when none.
+func (w *c03World) peekOrder(hi int) []c03Coord {
+	key := datastoreKeyForRoot(w.hdrs[hi].DAH)
+	w.la.dsLk.RLock()
+	data, err := w.la.ds.Get(context.Background(), key)
+	w.la.dsLk.RUnlock()
+	if err != nil {
+		return nil
+	}
+	var res SamplingResult
+	if json.Unmarshal(data, &res) != nil {
+		return nil
+	}
+	return c03FromSC(res.Remaining)
+}
+
+func c03FaultTerm(kind, point, class string, order []c03Coord) (string, any) {
+	e := map[string]string{"other": "EOther", "canceled": "ECanceled", "deadline": "EDeadline"}[class]
+	if kind == "load" {
+		return "(CfLoad " + e + ")", map[string]any{"load_failed": class}
+	}
+	return "(CfStore " + point + " " + e + " " + c03Coords(order) + ")", map[string]any{"store_failed": class, "at": point, "order": order}
+}
+
+// durableRaw: the bytes a fresh process would find for header hi ("-" when there are none).
+func (w *c03World) durableRaw(hi int) string {
+	key := samplingResultsPrefix.Child(datastoreKeyForRoot(w.hdrs[hi].DAH))
+	data, err := w.base.Get(context.Background(), key)
+	if err != nil {
+		return "-"
+	}
+	return string(data)
+}
+
+func (w *c03World) durableAll() map[int]string {
+	m := map[int]string{}
+	for hi, h := range w.sc.Hdrs {
+		if !h.Empty {
+			m[h.Root] = w.durableRaw(hi)
+		}
+	}
+	return m
+}
+
+// onFault: the oracle for a call that ran into a datastore fault (before = durable content when the op started).
+func (w *c03World) onFault(th *c03Thread, kind, point, class string, before map[int]string) {
+	h := w.sc.Hdrs[th.h]
+	t := w.truthOf(h.Root)
+	w.features["dsfault"]++
+	w.r.Count("ds_fault", kind+"/"+point+"/"+class)
+	failedOK := th.state == c03Returned && th.verdict != "VOk"
+	switch kind {
+	case "load":
+		if !failedOK {
+			what := "was handed coordinates " + fmt.Sprint(th.coords)
+			if th.state == c03Returned {
+				what = "returned " + th.verdict
+			}
+			w.viol("load-failure-ignored", fmt.Sprintf("root %d: the load of the previous result failed (%s) but call %d went on and %s", h.Root, class, th.id, what))
+		}
+		if b := before[h.Root]; b != "-" && b != w.durableRaw(th.h) {
+			w.viol("load-failure-changed-result", fmt.Sprintf("root %d: the load of the previous result failed (%s) in call %d and the durable result changed from %s to %s",
+				h.Root, class, th.id, b, w.durableRaw(th.h)))
+			t.tainted = true
+		}
+	case "store":
+		t.storeFault = true
+		if !failedOK {
+			w.viol("store-failure-ignored", fmt.Sprintf("root %d: persisting the result failed (%s at %s) but call %d did not return an error", h.Root, class, point, th.id))
+		}
+	}
+}
+
 // ---------------------------------------------------------------- executing one op on the real code
 
 func (w *c03World) snapshot() map[int]int {
@@ -694,7 +902,7 @@ func (w *c03World) snapshot() map[int]int {
 }
 
 // afterSettle reports the calls (other than skip) that moved since before: returned ones first, then the one inside the getter.
-func (w *c03World) afterSettle(before map[int]int, skip int, bytes []byte) {
+func (w *c03World) afterSettle(before map[int]int, skip int, bytes []byte, durBefore map[int]string) {
 	var ret, ing []*c03Thread
 	w.mu.Lock()
 	for id, th := range w.threads {
@@ -722,7 +930,13 @@ func (w *c03World) afterSettle(before map[int]int, skip int, bytes []byte) {
 			bs = bytes
 		}
 		o, oj := w.obsOf(th)
-		w.emit(zv.App("CWake", zv.N(uint64(th.id)), zv.Bytes(bs), o), map[string]any{"wake": th.id, "bytes": bs, "obs": oj})
+		if kind, point, class := w.takeFault(th); kind != "" {
+			ft, fj := c03FaultTerm(kind, point, class, w.peekOrder(th.h))
+			w.emit(zv.App("CWakeF", zv.N(uint64(th.id)), zv.Bytes(bs), ft, o), map[string]any{"wake": th.id, "bytes": bs, "fault": fj, "obs": oj})
+			w.onFault(th, kind, point, class, durBefore)
+		} else {
+			w.emit(zv.App("CWake", zv.N(uint64(th.id)), zv.Bytes(bs), o), map[string]any{"wake": th.id, "bytes": bs, "obs": oj})
+		}
 		w.features["wake"]++
 		w.process(th, bs, true)
 	}
@@ -733,7 +947,9 @@ func (w *c03World) process(th *c03Thread, bytes []byte, contractOK bool) {
 	if th.state == c03InGetter && th.entered {
 		th.entered = false
 		h := w.sc.Hdrs[th.h]
-		if len(bytes) > 0 || w.truthOf(h.Root).first == nil {
+		// a fresh draw (no bytes are read for a 1x1 square or an empty set); after a failed eager persist the first request for
+		// a root may be for a draw made by an earlier call: no draw case then
+		if t := w.truthOf(h.Root); len(bytes) > 0 || (t.first == nil && !t.storeFault) {
 			w.draws.Case(zv.Tuple(zv.Z(int64(h.W)), zv.Z(int64(w.count)), zv.Bytes(bytes), c03Coords(th.coords)),
 				map[string]any{"w": h.W, "count": w.count, "bytes": bytes, "coords": th.coords}, "draw")
 			w.r.Count("draw_w", fmt.Sprint(h.W))
@@ -747,12 +963,21 @@ func (w *c03World) process(th *c03Thread, bytes []byte, contractOK bool) {
 }
 
 func (w *c03World) exec(op c03Op) bool {
+	durBefore := w.durableAll()
+	defer func() {
+		// a fault is armed for one op only
+		w.mu.Lock()
+		for _, th := range w.threads {
+			th.arm = nil
+		}
+		w.mu.Unlock()
+	}()
 	switch op.Kind {
 	case "call":
 		if _, dup := w.threads[op.T]; dup || op.H < 0 || op.H >= len(w.hdrs) {
 			return false
 		}
-		th := &c03Thread{id: op.T, h: op.H, respCh: make(chan c03Resp, 1), w: w}
+		th := &c03Thread{id: op.T, h: op.H, respCh: make(chan c03Resp, 1), w: w, opN: map[string]int{}, arm: op.Fault}
 		th.ctx = &c03Ctx{done: make(chan struct{}), deadline: op.Deadline, vals: th}
 		if op.PreCancel {
 			th.ctx.finish(context.Canceled)
@@ -786,6 +1011,11 @@ func (w *c03World) exec(op c03Op) bool {
 			// the call met a held session with a context that was already done
 			w.emit(zv.App("CCall", zv.N(uint64(op.T)), zv.Nat(op.H), zv.Bytes(nil), "OAny"), map[string]any{"call": op.T, "hdr": hs, "pre_cancelled": true})
 			w.emit(zv.App("CAbort", zv.N(uint64(op.T)), "ECanceled", o), map[string]any{"abort": op.T, "obs": oj})
+		} else if kind, point, class := w.takeFault(th); kind != "" {
+			ft, fj := c03FaultTerm(kind, point, class, w.peekOrder(op.H))
+			w.emit(zv.App("CCallF", zv.N(uint64(op.T)), zv.Nat(op.H), zv.Bytes(bytes), ft, o),
+				map[string]any{"call": op.T, "hdr": hs, "bytes": bytes, "fault": fj, "obs": oj})
+			w.onFault(th, kind, point, class, durBefore)
 		} else {
 			w.emit(zv.App("CCall", zv.N(uint64(op.T)), zv.Nat(op.H), zv.Bytes(bytes), o), map[string]any{"call": op.T, "hdr": hs, "bytes": bytes, "obs": oj})
 		}
@@ -799,6 +1029,9 @@ func (w *c03World) exec(op c03Op) bool {
 			return false
 		}
 		before := w.snapshot()
+		w.mu.Lock()
+		th.arm, th.opN, th.dslog = op.Fault, map[string]int{}, nil
+		w.mu.Unlock()
 		w.onResp(th, *op.Resp)
 		n := len(op.Resp.Slots)
 		if op.Resp.Nil {
@@ -819,9 +1052,27 @@ func (w *c03World) exec(op c03Op) bool {
 		w.settle()
 		bytes := w.rd.mark()
 		o, oj := w.obsOf(th)
-		w.emit(zv.App("CResp", zv.N(uint64(op.T)), c03RespTerm(*op.Resp), o), map[string]any{"resp": op.T, "r": op.Resp, "obs": oj})
+		if kind, point, class := w.takeFault(th); kind != "" {
+			ft, fj := c03FaultTerm(kind, point, class, nil)
+			w.emit(zv.App("CRespF", zv.N(uint64(op.T)), c03RespTerm(*op.Resp), ft, o), map[string]any{"resp": op.T, "r": op.Resp, "fault": fj, "obs": oj})
+			w.onFault(th, kind, point, class, durBefore)
+		} else {
+			w.emit(zv.App("CResp", zv.N(uint64(op.T)), c03RespTerm(*op.Resp), o), map[string]any{"resp": op.T, "r": op.Resp, "obs": oj})
+		}
 		w.process(th, nil, contractOK)
-		w.afterSettle(before, op.T, bytes)
+		w.afterSettle(before, op.T, bytes, durBefore)
+	case "cancel":
+		// the context of a call that is inside the getter is done; the (scripted) getter answers when the harness says so. Nothing
+		// the model sees happens now: a context-aware datastore will refuse the persist after the answer.
+		th := w.threads[op.T]
+		if th == nil || th.state != c03InGetter {
+			return false
+		}
+		e := context.Canceled
+		if op.AbortErr == "deadline" {
+			e = context.DeadlineExceeded
+		}
+		th.ctx.finish(e)
 	case "abort":
 		th := w.threads[op.T]
 		if th == nil || th.state != c03Running {
@@ -969,6 +1220,7 @@ func c03GenScenario(rng *zv.Rand, idx int) (*c03Scenario, int, int) {
 	if rng.Chance(30) {
 		sc.Batch = rng.Intn(3)
 	}
+	sc.CtxAware = rng.Chance(25)
 	concurrent := rng.Chance(45)
 	nh := 1
 	if concurrent || rng.Chance(30) {
@@ -1000,6 +1252,27 @@ func c03GenScenario(rng *zv.Rand, idx int) (*c03Scenario, int, int) {
 		maxThreads = 2 + rng.Intn(3)
 	}
 	return sc, maxThreads, 5 + rng.Intn(12)
+}
+
+// c03GenFault: a datastore fault for a call (load or eager persist) or for the persist after an answer
+func c03GenFault(rng *zv.Rand, withLoad bool) *c03Fault {
+	f := &c03Fault{Nth: 1}
+	p := rng.Intn(100)
+	switch {
+	case withLoad && p < 45:
+		f.Op = "get"
+		return f
+	case p < 65:
+		f.Op = "batch"
+	case p < 90:
+		f.Op = "commit"
+	default:
+		f.Op = "bput"
+	}
+	if f.Op != "bput" && rng.Chance(30) {
+		f.Nth = 2 // the explicit Flush after a threshold flush (small write batches)
+	}
+	return f
 }
 
 // c03Next picks the next op from the current state of the world.
@@ -1042,12 +1315,29 @@ func c03Next(w *c03World, rng *zv.Rand, maxThreads int, nextTid *int, draining b
 				h = inG[rng.Intn(len(inG))].h // contention for a held session
 			}
 			op := c03Op{Kind: "call", T: *nextTid, H: h, PreCancel: rng.Chance(6), Deadline: rng.Chance(30)}
+			if rng.Chance(13) {
+				op.Fault = c03GenFault(rng, true)
+			}
 			*nextTid++
 			return op, "", true
+		case p >= 40 && p < 45 && len(inG) > 0 && w.sc.CtxAware:
+			th := inG[rng.Intn(len(inG))]
+			if th.ctx.Err() != nil {
+				continue
+			}
+			ae := "canceled"
+			if rng.Chance(40) {
+				ae = "deadline"
+			}
+			return c03Op{Kind: "cancel", T: th.id, AbortErr: ae}, "", true
 		case p >= 40 && p < 84 && len(inG) > 0:
 			th := inG[rng.Intn(len(inG))]
 			r, kind := c03GenResp(rng, len(th.coords), true)
-			return c03Op{Kind: "resp", T: th.id, Resp: &r}, kind, true
+			op := c03Op{Kind: "resp", T: th.id, Resp: &r}
+			if rng.Chance(14) {
+				op.Fault = c03GenFault(rng, false)
+			}
+			return op, kind, true
 		case p >= 84 && p < 90 && len(blocked) > 0:
 			th := blocked[rng.Intn(len(blocked))]
 			ae := "canceled"
@@ -1072,8 +1362,28 @@ func c03Next(w *c03World, rng *zv.Rand, maxThreads int, nextTid *int, draining b
 	return c03Op{}, "", false
 }
 
+// c03ProbeDrop asks the real code what a failed write leaves behind: storeResult with a datastore whose Batch() fails, then a read
+// through the instance. true = the failed write is gone from the write buffer (fix-c03-3), false = it is still readable.
+func c03ProbeDrop() bool {
+	probe := &c03World{sc: &c03Scenario{}}
+	th := &c03Thread{opN: map[string]int{}, arm: &c03Fault{Op: "batch", Nth: 1}}
+	th.ctx = &c03Ctx{done: make(chan struct{}), vals: th}
+	la := NewShareAvailability(nil, &c03DS{Batching: ds_sync.MutexWrap(datastore.NewMapDatastore()), dead: &atomic.Bool{}, w: probe}, nil)
+	key := datastore.NewKey("c03-probe")
+	if err := la.storeResult(th.ctx, key, &SamplingResult{}); err == nil {
+		panic("c03: probe: the armed datastore fault did not fail storeResult")
+	}
+	la.dsLk.RLock()
+	_, err := la.ds.Get(context.Background(), key)
+	la.dsLk.RUnlock()
+	return err != nil
+}
+
+var c03Drop = sync.OnceValue(c03ProbeDrop)
+
 func c03NewWorld(r *zv.Run, sc *c03Scenario, draws *zv.Group) *c03World {
 	w := &c03World{r: r, sc: sc, truth: map[int]*c03Truth{}, draws: draws, features: map[string]int{}, lastPersist: map[int]string{}}
+	w.drop = c03Drop()
 	w.rd = &c03Reader{rng: zv.NewRand(sc.RandSeed)}
 	crand.Reader = w.rd
 	writeBatchSize = sc.Batch
@@ -1140,12 +1450,12 @@ func (w *c03World) caseOut(g *zv.Group) {
 	for i, h := range w.sc.Hdrs {
 		hs[i] = c03HdrTerm(h)
 	}
-	term := zv.Tuple(zv.Nat(w.sc.Batch), zv.Z(int64(w.sc.Count)), zv.List(hs), zv.List(w.terms))
+	term := zv.Tuple(zv.Nat(w.sc.Batch), zv.Bool(w.drop), zv.Z(int64(w.sc.Count)), zv.List(hs), zv.List(w.terms))
 	key := ""
 	if (w.features["partial"] > 0) && (w.features["restart"] > 0 || w.features["blocked"] > 0) {
 		key = "nt"
 	}
-	g.Case(term, map[string]any{"scenario": w.sc, "trace": w.trace}, key)
+	g.Case(term, map[string]any{"scenario": w.sc, "drops_failed_write": w.drop, "trace": w.trace}, key)
 }
 
 func (w *c03World) note(op c03Op, kind string) {
@@ -1158,6 +1468,9 @@ func (w *c03World) note(op c03Op, kind string) {
 		}
 	case "crash", "restart":
 		w.features["restart"]++
+	}
+	if op.Fault != nil {
+		w.r.Count("fault_armed", op.Kind+"/"+op.Fault.Op)
 	}
 }
 
@@ -1186,7 +1499,7 @@ func c03RunGenerated(r *zv.Run, g, draws *zv.Group, rng *zv.Rand, idx int) {
 		r.Violation("harness-broken", w.broken, sc)
 	}
 	r.Count("threads", fmt.Sprint(maxThreads))
-	for _, f := range []string{"partial", "restart", "blocked", "wake"} {
+	for _, f := range []string{"partial", "restart", "blocked", "wake", "dsfault"} {
 		if w.features[f] > 0 {
 			r.Count("histories_with", f)
 		}
@@ -1269,6 +1582,40 @@ func c03FixedScenarios() []*c03Scenario {
 		{Name: "three-calls-one-height", Count: 3, Batch: 2048, RandSeed: 15, Hdrs: h, Ops: []c03Op{
 			{Kind: "call", T: 1}, {Kind: "call", T: 2}, {Kind: "call", T: 3},
 			{Kind: "resp", T: 1, Resp: &c03Resp{Slots: []int{1, 0, 0}}}, {Kind: "abort", T: 3, AbortErr: "deadline"}}},
+
+		// ---- datastore faults
+		// partial answer; the retry cannot read the previous result (I/O error): it must fail and change nothing; the next retry
+		// asks for exactly the two pending coordinates
+		{Name: "load-io-error-keeps-result", Count: 4, Batch: 2048, RandSeed: 16, Hdrs: h, Ops: []c03Op{
+			{Kind: "call", T: 1}, {Kind: "resp", T: 1, Resp: &c03Resp{Slots: []int{1, 0, 1, 0}, Err: "other"}},
+			{Kind: "call", T: 2, Fault: &c03Fault{Op: "get", Nth: 1}},
+			{Kind: "call", T: 3}, {Kind: "resp", T: 3, Resp: c03All(2)}}},
+		// the same with a caller whose context is already cancelled, on a datastore that honours contexts
+		{Name: "load-cancelled-context-keeps-result", Count: 4, Batch: 2048, RandSeed: 17, CtxAware: true, Hdrs: h, Ops: []c03Op{
+			{Kind: "call", T: 1}, {Kind: "resp", T: 1, Resp: &c03Resp{Slots: []int{0, 1, 1, 0}, Err: "deadline"}},
+			{Kind: "call", T: 2, PreCancel: true},
+			{Kind: "crash", Count: 4}, {Kind: "call", T: 3}, {Kind: "resp", T: 3, Resp: c03All(2)}}},
+		// everything is served but the result cannot be committed: the call fails, nothing counts as sampled, the retry asks again
+		{Name: "final-store-commit-fails", Count: 4, Batch: 2048, RandSeed: 18, Hdrs: h, Ops: []c03Op{
+			{Kind: "call", T: 1}, {Kind: "resp", T: 1, Resp: c03All(4), Fault: &c03Fault{Op: "commit", Nth: 1}},
+			{Kind: "call", T: 2}, {Kind: "resp", T: 2, Resp: c03All(4)}}},
+		// the context ends while the getter works; a context-aware datastore refuses the persist of the partial answer
+		{Name: "cancelled-while-sampling", Count: 4, Batch: 2048, RandSeed: 19, CtxAware: true, Hdrs: h, Ops: []c03Op{
+			{Kind: "call", T: 1, Deadline: true}, {Kind: "cancel", T: 1, AbortErr: "deadline"},
+			{Kind: "resp", T: 1, Resp: &c03Resp{Slots: []int{1, 1, 0, 0}, Err: "deadline"}},
+			{Kind: "crash", Count: 4}, {Kind: "call", T: 2}, {Kind: "resp", T: 2, Resp: c03All(4)}}},
+		// small write batch: the threshold flush inside Put goes through, the explicit Flush after it fails: the draw is durable,
+		// the call fails, the retry asks for that draw
+		{Name: "eager-store-second-flush-fails", Count: 3, Batch: 0, RandSeed: 20, Hdrs: h, Ops: []c03Op{
+			{Kind: "call", T: 1, Fault: &c03Fault{Op: "batch", Nth: 2}},
+			{Kind: "crash", Count: 3}, {Kind: "call", T: 2}, {Kind: "resp", T: 2, Resp: c03All(3)}}},
+		// the witness of C03_pending_stable_keepbuf_refuted (repaired by fix-c03-3): the eager persist of the first draw fails at
+		// Batch(); the retry must not hand coordinates to the getter that are not durable - the getter hands back nothing, the
+		// process dies, and the next call has to ask for the same coordinates
+		{Name: "failed-eager-store-retry-crash", Count: 4, Batch: 2048, RandSeed: 22, Hdrs: h, Ops: []c03Op{
+			{Kind: "call", T: 1, Fault: &c03Fault{Op: "batch", Nth: 1}},
+			{Kind: "call", T: 2}, {Kind: "resp", T: 2, Resp: &c03Resp{Nil: true, Err: "other"}},
+			{Kind: "crash", Count: 4}, {Kind: "call", T: 3}, {Kind: "resp", T: 3, Resp: c03All(4)}}},
 	}
 }
 
